@@ -194,6 +194,17 @@ def gen_geo_case(rnd, want_auto=None, argtypes=True, coordapi=True):
     argt = 'float'
     if argtypes and rnd.random() < 0.3:
         argt = rnd.choice(ax.ANGLE_CLASSES)
+        r2 = rnd.random()
+        if r2 < 0.25:
+            # typed-looking values and values a hair off a whole degree / minute (where a notation's own rounding or a
+            # "clean-up" of float noise would move the position)
+            step = rnd.choice([3600, 60, 1])
+            off = rnd.choice([0.0, 1e-7, -1e-7, 3e-8, -3e-8, 1e-6, -1e-9])
+            nlat = round(lat * 3600 / step) * step / 3600.0 + off
+            nlon = round(lon * 3600 / step) * step / 3600.0 + off
+            if -80.0 <= nlat <= 84.0 and -180.0 <= nlon < 180.0 and (zone == 0 or abs(nlon - lon) < 1.0):
+                lat, lon = nlat, nlon
+                kind = 'near-whole-unit'
     api = 'geo2grid'
     if coordapi and zone == 0 and rnd.random() < 0.12:
         api = 'CoordGeo.tm'
